@@ -632,6 +632,13 @@ impl<Tx: Debug + ProstMessage + Default, Rx: Debug + ProstMessage + Default> Cha
         }
 
         if self.front_buf.available_space() == 0 {
+            // Bytes of already-returned messages may still sit in front of the
+            // pending data (`consume` only shifts past capacity / 2): reclaim
+            // them before growing or giving up, otherwise a frame that fits
+            // `max_buffer_size` can never be completed.
+            self.front_buf.shift();
+        }
+        if self.front_buf.available_space() == 0 {
             if self.front_buf.capacity() >= self.max_buffer_size {
                 return Err(ChannelError::BufferFull {
                     capacity: self.front_buf.capacity(),
